@@ -267,7 +267,7 @@ type knownEvent struct {
 // read-only memory) as a finding, honouring KnownEvent declarations.
 func (i *interpreter) event(kind, site, msg string) {
 	p := i.path
-	f := Finding{Site: site, Kind: kind, Msg: msg, Decisions: append([]int(nil), p.decisions...)}
+	f := Finding{Site: site, Kind: kind, Msg: msg, Decisions: append([]int(nil), p.decisions...), Choices: copyChoices(p.res.Choices)}
 	// model of the current path condition
 	p.sess.Push()
 	if p.sess.Check() == smt.Sat {
